@@ -5914,7 +5914,10 @@ class PyCdlib:
         that the ISO already have El Torito, and will use the El Torito boot
         file as a bootable image.  That image must contain a certain signature
         in order to work as a hybrid (if using syslinux, this generally means
-        the isohdpfx.bin files).
+        the isohdpfx.bin files).  With efi the ISO must also already have an
+        El Torito entry for the EFI platform, and with mac two of them; the
+        EFI partition describes the boot image of the one, the Mac partition
+        that of the other.
 
         Parameters:
          part_entry - The partition entry to use (1 to 4, but not 2 with efi
@@ -5957,6 +5960,20 @@ class PyCdlib:
             raise pycdlibexception.PyCdlibInvalidInput('The partition entry must be between 1 and 4, inclusive')
         if (efi and part_entry == 2) or (mac and part_entry == 3):
             raise pycdlibexception.PyCdlibInvalidInput('Partition entry 2 is used by the EFI partition and 3 by the Mac partition')
+
+        # The EFI partition is the boot image of one El Torito entry for the
+        # EFI platform and the Mac partition that of another one; without
+        # them there is nothing that the partitions could describe.
+        num_efi_entries = 0
+        if self.eltorito_boot_catalog.validation_entry.platform_id == 0xef:
+            num_efi_entries += 1 + len(self.eltorito_boot_catalog.standalone_entries)
+        for sec in self.eltorito_boot_catalog.sections:
+            if sec.platform_id == 0xef:
+                num_efi_entries += len(sec.section_entries)
+        if efi and num_efi_entries < 1:
+            raise pycdlibexception.PyCdlibInvalidInput('The ISO must have an El Torito EFI entry to add isohybrid EFI support')
+        if mac and num_efi_entries < 2:
+            raise pycdlibexception.PyCdlibInvalidInput('The ISO must have two El Torito EFI entries to add isohybrid Mac support')
 
         if part_type is None:
             part_type = 0x17
